@@ -301,7 +301,10 @@ def rule_strip(ctx, F):
         alt_gets = []
         for bb, t in b.calls():
             if re.search(r"Cache::<.*>::get$|cache_lookup_do_ad$|cache_lookup_ad$", t["fn"] or ""):
-                if len(t["args"]) > 1 and "alt_key" in names_in_term(b, b.term_of_operand(t["args"][1])):
+                # by role, not by name: the alternative key is a *clone* of the requested key (one of whose fields is
+                # then overwritten); the requested key itself is the function's parameter
+                if len(t["args"]) > 1 and any(s[0] == "call" and re.search(r"Clone(<.*>)?::clone$|Key as core::clone::Clone>::clone$", s[1] or "")
+                                              for s in walk(b.term_of_operand(t["args"][1]))):
                     alt_gets.append(bb)
         ctx.anchor(R, "%s: lookup under the alternative key" % fn, len(alt_gets) >= 1, b.where())
         somes = []
